@@ -1045,8 +1045,11 @@ where
                     hs_noncmplt = Some(c);
                 }
             }
+            // A production which references a rule we haven't finished with yet might still turn
+            // out to be the most expensive one, so (unless we've seen an infinite rule) we can
+            // only fix this rule's cost when all of its productions are complete.
             if let Some(high_cmplt) = hs_cmplt
-                && (hs_noncmplt.is_none() || hs_cmplt > hs_noncmplt)
+                && (hs_noncmplt.is_none() || high_cmplt == u16::MAX)
             {
                 debug_assert!(high_cmplt >= costs[i]);
                 costs[i] = high_cmplt;
